@@ -27,7 +27,7 @@ CHECKS = {
     "C05": ("exploration",
             "runtime monitor with a harness-owned version store: content file decoded before fix, data dirs snapshot before/after, fix tags and exit status; every recorded file must hold the recorded version's bytes or be reported unrecoverable; violations are keyed by a diagnosis of the witness block (state, recorded hash vs frozen-reference hash of new / old occupant bytes)",
             "Histories with complete, partial (-S/-B), killed-after-parity syncs, stripes skipped because a file of the stripe is rewritten/removed/touched between scan and sync (--test-run), copy-detected files, and files replaced at the same position (the shape of the hand-found defects); then detectable damage on 0..nd+np devices; then fix with and without -f/-d/-m/-e. Oracle: never wrong bytes under a recorded name unless reported, never status:recovered with other bytes, nothing unknown to the content file or outside -d written, exit status reflects unrecoverable reports.",
-            "Only detectable damage; hash size 16. Files fix did not touch are not attributed to fix. Open findings F5 and F21 (heuristics for never-synced CHG blocks) are reported as KNOWN-FINDING by mechanism key."),
+            "Only detectable damage; hash size 16. Files fix did not touch are not attributed to fix. Open findings F5, F21 and F23 (heuristics for never-synced CHG blocks) are reported as KNOWN-FINDING by mechanism key."),
     "C06": ("exploration",
             "runtime monitor: independent content-file decoder + GF(2^8) parity oracle over a harness-owned version store, applied after every command of random histories (plain and ASan/UBSan builds)",
             "After every single command of random histories (syncs of all kinds incl. partial, forced, pre-hash, autosave, kill-after-sync; scrub; fix after random damage; rehash; touch; disk removal/addition leaving position holes) each on-disk content file is decoded independently, the block-map invariants are asserted and every stripe whose blocks are all recorded synced is recomputed from the version store and compared with the parity files at the offset given by the recorded split sizes. This is the right level because the property is a state invariant quantified over histories: an oracle after each step over thousands of sampled histories observes exactly the state the property talks about.",
@@ -35,7 +35,7 @@ CHECKS = {
     "C07": ("fault_enumeration",
             "fault enumeration over kill points: LD_PRELOAD shim numbers every state-changing system call of sync/fix and kills the process before/after/in the middle of call k, or raises SIGINT at the j-th parity write; oracles = data snapshot diff, content loadability, version-store recovery test, resume sync + parity oracle + recovery + check, twin comparison for fix",
             "Every state-changing call on data/parity/content files of sync and of fix is a kill point in three modes (all of them in thorough, stratified in quick), plus SIGINT at every parity write and kills after each content rename with slowed parity writers. After each interruption the properties' own clauses are evaluated: data untouched, a content file loads, earlier files recoverable meanwhile (adds-only), a second sync re-establishes parity validity and recoverability; for fix, a second run converges to the uninterrupted twin's tree.",
-            "Kill = process death, page cache survives. Hash size 16 only (reduced hash sizes cannot represent the special ZERO hash the adds-only guarantee relies on; documented limitation). Open findings F15, F16, F17 are reported as KNOWN-FINDING by mechanism key."),
+            "Kill = process death, page cache survives. Hash size 16 only (reduced hash sizes cannot represent the special ZERO hash the adds-only guarantee relies on; documented limitation). Open findings F15, F16, F17, F22 are reported as KNOWN-FINDING by mechanism key."),
     "C08": ("fault_enumeration",
             "fault enumeration over I/O calls: LD_PRELOAD shim fails the read/write of an addressed (file, block offset) with EIO/ENOSPC during sync and scrub; oracles = exit status and summary tags, independently decoded content (block states, bad marks), status -G, repair sequence + parity oracle, comparison with the fault-free twin",
             "Every data-file read and parity read/write of sync and scrub on small arrays is a fault point (first/middle/last and the last cache-depth stripes always; all of them in thorough), single and multiple faults, io-cache 1/3/8/default. For each: failing status + diagnostic, stripe not recorded synced-and-healthy, visible in status, repaired by fix -e / scrub -p bad / next sync, every other stripe as in the fault-free twin and valid under the parity oracle.",
@@ -46,7 +46,7 @@ CHECKS = {
             "Kill = process death, not power loss (fsync is checked only as an ordering event). Multi-byte random damage passing the CRC by chance (2^-32) would be reported as accepted. Mutation positions for byte-value mutants are strided in quick."),
     "C10": ("exploration",
             "runtime monitor: byte comparison of content files before/after test-rewrite under a frozen clock, list/status dumps per content copy compared with an independent decoder, plus encoder-built content files with boundary values fed to the real loader/writer",
-            "Reached states (interrupted and partial syncs, bad/rehash/just-synced marks, holes, links, empty dirs, arbitrary-byte names, all hash sizes, both format versions) and constructed states (values at varint boundaries, sizes to 2^40, inode 2^64-1, nsec invalid/0/max, deleted runs, long and short runs) must round-trip byte-exactly through load+save, print exactly the decoded values in list -l / status -G -l, and be independent of which copy is read first.",
+            "Reached states (interrupted and partial syncs, bad/rehash/just-synced marks, holes, links, empty dirs, arbitrary-byte names, all hash sizes, both format versions) and constructed states (values at varint boundaries, sizes to 2^40, inode 2^64-1, nsec invalid/0/max, deleted runs, long and short runs) must round-trip byte-exactly through load+save, print exactly the decoded values in list -l / status -G -l, and be independent of which copy is read first. Across consecutive saves of a history a conservation oracle runs: a block recorded as contained in the parity (synced, or deleted with its hash) may vanish from the next saved state only if its stripe was really synced again (parity oracle), otherwise in-memory state (pending deletions, disk mapping) was lost in the save.",
             "Positions bounded by 2^21+8 (memory). The decoder/encoder pair is my own (self-checked: encode(decode(x)) == x on every tool-written file); constructed files are only claimed valid in the writer's normal form."),
     "C11": ("exploration",
             "runtime monitor with a reference model: the harness performs every file-system operation itself and keeps a model; diff exit status, list -l, independently decoded content (empty dirs, block states) and frozen-reference hashes of every recorded block are compared with the model after each sync",
@@ -62,11 +62,11 @@ CHECKS = {
             "Interleavings are sampled, not enumerated: the exhaustive exploration of a ring-protocol model named in the property's observe_at is model checking and is not done (DESIGN.md section 6). Termination means 'ended within the watchdog on every run'. State comparison ignores free-space counters and inode numbers."),
     "C14": ("exploration",
             "runtime monitor: each interlock trigger is produced on a restored image, sync is run without and with the override, and the bytes/sizes of every content and parity file plus the directory listings are compared before/after; lock exclusion is tested by holding a first command inside its run with a shim delay while a second command is started",
-            "Triggers: all files of a disk missing / rewritten, a non-empty file emptied, a parity file truncated below the required size (aligned and unaligned cuts, any split), blocksize / hashsize changed in the configuration, a recorded disk dropped from the configuration, lock held by another command; alone and mixed with ordinary pending changes, on every disk / level. Refusal must leave every content and parity byte untouched; with the override (or restored configuration, or after the other command ended) the same sync must proceed.",
+            "Triggers: all files of a disk missing / rewritten, a non-empty file emptied, a parity file truncated below the required size (every level in turn, emptied completely or cut at aligned and unaligned lengths, any split), blocksize / hashsize changed in the configuration, a recorded disk dropped from the configuration, lock held by another command; alone and mixed with ordinary pending changes, on every disk / level. Refusal must leave every content and parity byte untouched; with the override (or restored configuration, or after the other command ended) the same sync must proceed.",
             "Sampled arrays; 'parity smaller' is produced by truncation, not deletion. Lock pairs whose delay rule did not fire are not counted."),
     "C15": ("exploration",
             "runtime monitor under a controlled clock: per-stripe last-check times are laid out with the shim's frozen time, the verified set of one scrub is observed from parity read offsets in the shim event log and from the independently decoded info words before/after, and judged against the documented plan rules; snapshots guard parity and data",
-            "Random layouts (several scrub batches and syncs at chosen fake times, bad marks from real silent errors, files changed since the last sync) x plans full/new/bad/percentage+age/default at a chosen 'now'. Selection (bad always, full, new, quota, age limit, oldest first, no unused quota) and book-keeping (refresh and clearing only when verified correct, bad only on silent errors, unsynced differences never marked, parity/data untouched) are checked on every run; eventual coverage is decided as bounded progress over 13 default scrubs 11 days apart.",
+            "Random layouts (several scrub batches and syncs at chosen fake times, bad marks from real silent errors, files changed / removed / only touched since the last sync, damaged parity blocks) x plans full/new/bad/percentage+age/default at a chosen 'now'. Selection (bad always, full, new, quota, age limit, oldest first, no unused quota) and book-keeping (refresh and clearing only when verified correct - judged against the set of stripes that are wrong as computed by the harness itself from the version store and the parity oracle, not from the tool's own error tags -, bad only on silent errors, unsynced differences never marked, parity/data untouched) are checked on every run; eventual coverage is decided as bounded progress over 13 default scrubs 11 days apart.",
             "Ties at the limit time may be broken either way (ordering is checked, not a particular choice); 8 s time granularity; hash size 16."),
     "C16": ("exploration",
             "differential monitoring against recorded observations of the reference version: vendored arrays written by the pristine pinned tree are checked and repaired by the current tree; digests, CRCs and parity of stored vectors are recomputed through harnesses linked with the current objects and compared with stored values and frozen reference sources",
@@ -82,11 +82,11 @@ CHECKS = {
             "Pattern grammar restricted to forms whose meaning is unambiguous in POSIX and the manual. Empty directories produced by filtering are not judged. Open finding F20 (directory pruning vs 'first match decides') is reported as KNOWN-FINDING."),
     "C19": ("exploration",
             "runtime monitor: decoy files (same name/path, size, time-stamp, other bytes) for copy detection, import directories and duplicate search; after each command every block recorded synced must carry the frozen-reference hash of the bytes the harness wrote, the parity oracle must hold, and fix may only produce recorded versions",
-            "Decoys on the same and other disks with zero and non-zero sub-second stamps, true moves within and across disks, true copies and decoys in -i / --test-import-content directories and as unsynced duplicates in the array, with -h, --force-nocopy and provisional hashes carried over --test-kill-after-sync. A sync that matched a decoy must fail (with -h: no parity byte changes) and must never record a foreign hash; later syncs converge; fix never writes decoy bytes.",
-            "Whether copy detection picks a decoy depends on scan order; evidence counts how many were actually matched. Hash size 16."),
+            "Decoys (fully different, or sharing leading/trailing blocks with the original) on the same and other disks with zero and non-zero sub-second stamps, true moves within and across disks, true copies and decoys in -i / --test-import-content directories and as unsynced duplicates in the array, with -h, --force-nocopy and provisional hashes carried over --test-kill-after-sync. A sync that matched a decoy must fail (with -h: no parity byte changes) and must never record a foreign hash; later syncs converge; fix never writes decoy bytes.",
+            "Whether copy detection picks a decoy depends on scan order; evidence counts how many were actually matched. Hash sizes 16/8/4/2: decoys are generated collision-free under the truncated hash, arrays whose own blocks collide are counted trivial."),
     "C20": ("exploration",
             "runtime monitor: every derived view (list tags and stdout, dup, status, pool tree) compared with the independently decoded content file and the harness's byte-level model; escaping inverted; per-tag line counts as a forged-line detector",
-            "Arrays with hostile and tag-lookalike names, duplicate groups across disks, zero sub-second stamps, pre-existing pool contents, with and without a share prefix. list/dup/status log tags and stdout are parsed back (esc_tag / shell escaping inverted) and must give exactly the recorded names, sizes, links; dup pairs must induce the content-equality partition; the pool dir must hold exactly one resolving link per recorded name with stale links and empty dirs gone and foreign files kept.",
+            "Arrays with hostile and tag-lookalike names, duplicate groups across disks, zero sub-second stamps, pre-existing pool contents, with and without a share prefix. list/dup/status log tags and stdout are parsed back (esc_tag / shell escaping inverted) and must give exactly the recorded names, sizes, links; dup pairs must induce the content-equality partition; the pool dir must hold exactly one resolving link per recorded name with stale links and empty dirs gone and foreign files kept - after the first pool run and after two further runs that follow removals, moves of files and links across disks, file-to-link replacement and retargeted links.",
             "dup asserted only for hash size 16 outside a migration. Open findings F7b/F7c (newline in names on stdout) are reported as KNOWN-FINDING."),
 }
 
